@@ -765,3 +765,62 @@ func init() {
 	reg("C08.expr", checkC08)
 	_ = strings.Join
 }
+
+// ---- in / not in with typed Go slices and arrays on the right ----------------------------------------------------
+
+type C08TypedInCase struct {
+	Expr string `json:"expr"` // uses L
+	Typ  string `json:"typ"`
+}
+
+func c08TypedList(typ string) (typed interface{}, untyped []interface{}) {
+	switch typ {
+	case "[]int":
+		return []int{1, 2, 3, 40}, []interface{}{1, 2, 3, 40}
+	case "[]int64":
+		return []int64{1, 2, 3, 40}, []interface{}{1, 2, 3, 40}
+	case "[]int32":
+		return []int32{1, 2, 3, 40}, []interface{}{1, 2, 3, 40}
+	case "[]uint8":
+		return []uint8{1, 2, 3, 40}, []interface{}{1, 2, 3, 40}
+	case "[]float64":
+		return []float64{1, 2, 3, 40, 2.5}, []interface{}{1, 2, 3, 40, 2.5}
+	case "[]named":
+		return []zNamedInt{1, 2, 3, 40}, []interface{}{1, 2, 3, 40}
+	case "[4]int":
+		return [4]int{1, 2, 3, 40}, []interface{}{1, 2, 3, 40}
+	case "[]string":
+		return []string{"1", "2", "ab", "40"}, []interface{}{"1", "2", "ab", "40"}
+	}
+	return nil, nil
+}
+
+// checkC08TypedIn: `in` and `not in` ask whether the value is among the elements; the answer for a
+// typed Go slice or array is the answer for an untyped list of the same elements.
+func checkC08TypedIn(c C08TypedInCase) error {
+	typed, untyped := c08TypedList(c.Typ)
+	src := "{{ " + c.Expr + " ? 'yes' : 'no' }}"
+	rt := render1(src, map[string]interface{}{"L": typed, "a": 1, "s": "a"})
+	ru := render1(src, map[string]interface{}{"L": untyped, "a": 1, "s": "a"})
+	if rt.Failed() != ru.Failed() || rt.Out != ru.Out {
+		return fmt.Errorf("%s with L a %s gives %v, with L an untyped list of the same elements %v", src, c.Typ, rt, ru)
+	}
+	return nil
+}
+
+func TestC08TypedIn(t *testing.T) {
+	r := NewRec(t, "C08", "exhaustive: 8 typed Go slices and arrays ([]int, []int64, []int32, []uint8, []float64, a slice of a named int, [4]int, []string) x 16 membership tests whose left operand is a literal, a variable, a sum, a quotient, a concatenation or a float; oracle: the answer for an untyped list of the same elements; all cases non-trivial")
+	defer r.Flush()
+	r.SetExhaustive()
+	for _, typ := range []string{"[]int", "[]int64", "[]int32", "[]uint8", "[]float64", "[]named", "[4]int", "[]string"} {
+		for _, ex := range []string{"2 in L", "5 in L", "(1 + 1) in L", "a + 1 in L", "4 / 2 in L", "a * 40 in L", "2.5 in L", "2.0 in L", "a in L", "5 not in L", "a + 2 not in L", "(a + 1) not in L", "'2' in L", "(s ~ 'b') in L", "'ab' not in L", "(41 - a) in L"} {
+			c := C08TypedInCase{Expr: ex, Typ: typ}
+			r.Case(typ+ex, true, c)
+			if err := checkC08TypedIn(c); err != nil {
+				r.FailEnumKey(t, "C08.typedin", typ, c, err)
+			}
+		}
+	}
+}
+
+func init() { reg("C08.typedin", checkC08TypedIn) }
